@@ -27,6 +27,9 @@ type c12Case struct {
 	// tidying up its scratch directory) and the remaining calls run in a second test. Those calls must behave exactly as
 	// they do in a process that makes only them (the directory is created again).
 	RmDirAt int `json:"rmdir_before_call,omitempty"`
+	// KeepDir (with RmDirAt): the directory is NOT removed; instead the calls before RmDirAt run in a test whose name differs
+	// from the second test's name only in the case of one letter. The calls of the second test must end as they do alone.
+	KeepDir bool `json:"keep_directory_earlier_test_differs_in_case,omitempty"`
 }
 
 // optionValues builds the option functions of a spec (Dir relative to root); zero fields produce no option.
@@ -114,6 +117,8 @@ func genC12(t *rapid.T) c12Case {
 	}
 	if n >= 2 && rapid.IntRange(0, 3).Draw(t, "rmdir") == 0 {
 		c.RmDirAt = rapid.IntRange(2, n).Draw(t, "rmdirat")
+		// (with a fixed Filename the standalone files of two tests coincide by design: only without one)
+		c.KeepDir = c.Spec.Filename == "" && c.Over.Filename == "" && rapid.Bool().Draw(t, "keepdir")
 	}
 	return c
 }
@@ -154,6 +159,9 @@ func runC12From(c c12Case, shared bool, from int) (c12Obs, error) {
 		witness("TestWitnessBefore")
 	}
 	ft := newFakeT("TestCfg")
+	if c.KeepDir {
+		ft = newFakeT("TestCfgAfterRemovaL")
+	}
 	if from > 0 {
 		ft = newFakeT("TestCfgAfterRemoval")
 	}
@@ -164,8 +172,10 @@ func runC12From(c c12Case, shared bool, from int) (c12Obs, error) {
 		}
 		if from == 0 && c.RmDirAt > 0 && i == c.RmDirAt-1 {
 			ft.finish()
-			if err := os.RemoveAll(root); err != nil {
-				return obs, fmt.Errorf("harness: %v", err)
+			if !c.KeepDir {
+				if err := os.RemoveAll(root); err != nil {
+					return obs, fmt.Errorf("harness: %v", err)
+				}
 			}
 			ft = newFakeT("TestCfgAfterRemoval")
 		}
@@ -248,10 +258,10 @@ func checkC12(c c12Case) error {
 		for i := range alone.outcomes {
 			k := c.RmDirAt - 1 + i
 			if sharedObs.outcomes[k] != alone.outcomes[i] {
-				return fmt.Errorf("call %d (%s via %s) after the snapshot directory was removed: outcome %s, but %s in a process that makes only the calls from %d on (what a call does depends on the calls made earlier)", k+1, c.Calls[k].Call.API, c.Calls[k].Via, sharedObs.outcomes[k], alone.outcomes[i], c.RmDirAt)
+				return fmt.Errorf("call %d (%s via %s) after the earlier calls (directory removed in between, or made by a test whose name differs in case only): outcome %s, but %s in a process that makes only the calls from %d on (what a call does depends on the calls made earlier)", k+1, c.Calls[k].Call.API, c.Calls[k].Via, sharedObs.outcomes[k], alone.outcomes[i], c.RmDirAt)
 			}
 		}
-		if d := diffDirs(alone.dir, sharedObs.dir, false); d != "" {
+		if d := diffDirs(alone.dir, sharedObs.dir, false); d != "" && !c.KeepDir {
 			return fmt.Errorf("after the snapshot directory was removed before call %d, the directory differs from the one of a process that makes only the calls from %d on (alone -> after removal): %s", c.RmDirAt, c.RmDirAt, d)
 		}
 	}
@@ -278,8 +288,12 @@ func classifyC12(c c12Case) ([]string, bool) {
 		cls = append(cls, "three_or_more_apis")
 		nt = true
 	}
-	if c.RmDirAt > 0 {
+	if c.RmDirAt > 0 && !c.KeepDir {
 		cls = append(cls, "snapshot_dir_removed_between_calls")
+		nt = true
+	}
+	if c.KeepDir {
+		cls = append(cls, "earlier_test_with_a_name_differing_in_case")
 		nt = true
 	}
 	if c.Spec.JSON != nil && c.Over.JSON != nil {
